@@ -88,6 +88,14 @@ Val(t, env) ==
       [] k = "Mul" -> VMul(A(1), ProdVals([i \in 1..(Len(t.a) - 1) |->
                                  T("Pow", t.a[i + 1].a, "", 0, 0)], env, 1))
       [] k = "Pow" -> (IF t.a[1].k = "Const" /\ t.a[1].s = "E" THEN VExp(A(2)) ELSE VPow(A(1), A(2)))
+      \* simultaneous substitution of symbols: a = <<e, key1, value1, key2, value2, ...>>
+      [] k \in {"subs", "xreplace", "msubs", "ssubs"} ->
+           LET n == (Len(t.a) - 1) \div 2
+               keys == {t.a[2 * i].s : i \in 1..n}
+               symbolic == \A i \in 1..n : t.a[2 * i].k = "Sym"
+               valOf(s) == LET i == CHOOSE i \in 1..n : t.a[2 * i].s = s IN Val(t.a[2 * i + 1], env)
+               env2 == [s \in (DOMAIN env) \cup keys |-> IF s \in keys THEN valOf(s) ELSE env[s]]
+           IN IF symbolic THEN Val(t.a[1], env2) ELSE VUndef
       [] k = "expand" -> A(1)
       [] k = "UnevaluatedExpr" -> A(1)
       [] k = "unevaluated_expr" -> A(1)
